@@ -130,7 +130,7 @@ def method_fn(pt, m):
             return pt.Seq(pt.Log(pt.Bytes(tag)), output.set(a.get() + pt.Len(b.get())))
     else:
         raise ValueError(shape)
-    fn.__name__ = m["name"]
+    fn.__name__ = m.get("fname", m["name"])        # the python function's own name (differs from the registered one with overriding_name)
     return fn
 
 
@@ -153,6 +153,10 @@ def build_router(pt, cfg):
         if via == "decorator":
             kw = {oc: real_cc(pt, cc) for oc, cc in m["mc"].items()}
             r.method(**kw)(fn)
+        elif via == "add_override":            # registered under m["name"], the function itself is called m["fname"]
+            r.add_method_handler(pt.ABIReturnSubroutine(fn), overriding_name=m["name"], method_config=real_mc(pt, m["mc"]))
+        elif via == "decorator_name":          # @router.method(name=X, ...) on a function with another name
+            r.method(name=m["name"], **{oc: real_cc(pt, cc) for oc, cc in m["mc"].items()})(fn)
         elif via == "decorator_kw":            # keywords exactly as the user wrote them, explicit NEVERs included
             r.method(**{oc: real_cc(pt, cc) for oc, cc in m["kw"].items()})(fn)
         elif via == "default_decorator":       # documented default: MethodConfig(no_op=CallConfig.CALL)
@@ -195,6 +199,13 @@ def directed_oc_cfgs():
         others = [o for o in OC5 if o != oc]
         out.append({"bare": {o: ["expr", "all"] for o in others}, "clear": "expr",
                     "methods": [{"name": "m0", "hid": 0, "shape": "a1", "mc": {o: "all" for o in others}, "via": "add"}]})
+    # overriding names: registered as m0 / impl0 / m2 while the functions are called impl0 / impl1 / impl2
+    out.append({"bare": {}, "clear": None, "methods": [
+        {"name": "m0", "fname": "impl0", "hid": 0, "shape": "v0", "mc": {"no_op": "call"}, "via": "add_override"},
+        {"name": "impl0", "fname": "impl1", "hid": 1, "shape": "v0", "mc": {"no_op": "all", "opt_in": "call"}, "via": "add_override"},
+        {"name": "m2", "fname": "impl2", "hid": 2, "shape": "a1", "mc": {"delete_application": "all"}, "via": "decorator_name"}]})
+    out.append({"bare": {"no_op": ["expr", "create"]}, "clear": "expr", "methods": [
+        {"name": "m0", "fname": "impl0", "hid": 0, "shape": "a2r", "mc": {oc: "all" for oc in OC5}, "via": "add_override"}]})
     out.append({"bare": {oc: ["expr", CCS[1 + i % 3]] for i, oc in enumerate(OC5)}, "clear": "abisub",
                 "methods": [{"name": "m0", "hid": 0, "shape": "v0", "mc": {oc: CCS[1 + (i + 1) % 3] for i, oc in enumerate(OC5)}, "via": "add"},
                             {"name": "m1", "hid": 1, "shape": "r0", "mc": {oc: "all" for oc in OC5}, "via": "add"}]})
@@ -349,6 +360,12 @@ def materialize(cfg, desc):
         if not ms:
             return None
         head = [selector(method_sig(ms[0]))] + list(SHAPES[ms[0]["shape"]][1])
+    elif first.startswith("own:"):
+        # the selector of the function's OWN signature (not the registered, overriding name), decodable arguments
+        ms = [m for m in cfg["methods"] if m.get("fname") == first[4:]]
+        if not ms:
+            return None
+        head = [selector(ms[0]["fname"] + SHAPES[ms[0]["shape"]][0])] + list(SHAPES[ms[0]["shape"]][1])
     else:
         head = [bytes.fromhex(first[4:])]
     return head + [EXTRAS[i % 2] for i in range(desc["extras"])]
@@ -359,6 +376,7 @@ def arg_shapes(cfg, extras=(0, 1, 2)):
     a 3-byte prefix and a 5-byte extension of a registered selector (or of the unknown one), and no arguments."""
     out = [{"first": "none", "extras": 0}]
     firsts = ["sel:" + m["name"] for m in cfg["methods"]]
+    firsts += ["own:" + m["fname"] for m in cfg["methods"] if m.get("fname") and m["fname"] != m["name"]]
     unknown = selector("nobody_registered_this()void")
     firsts.append("raw:" + unknown.hex())
     base = selector(method_sig(cfg["methods"][0])) if cfg["methods"] else unknown
@@ -383,7 +401,7 @@ def call_matrix(cfg, extras=(0, 1, 2)):
 # structural walk of the real AST
 # ---------------------------------------------------------------------------------------------
 SIG_RE = re.compile(r"\(MethodSignature '([^']*)'\)")
-HANDLER_RE = re.compile(r'"(H\d+|B\d+|CS)"|SubroutineCall (m\d+|bare_[a-z_]+|clear_action)(?:_caster)? ')
+HANDLER_RE = re.compile(r'"(H\d+|B\d+|CS)"|SubroutineCall (m\d+|impl\d+|bare_[a-z_]+|clear_action)(?:_caster)? ')
 
 
 def norm_cond(text):
@@ -419,7 +437,8 @@ def handler_names(cfg):
     for oc in cfg["bare"]:
         names["bare_" + oc] = bare_hid(oc)
     for m in cfg["methods"]:
-        names[m["name"]] = m["hid"]
+        # the subroutine in the AST carries the function's own name (add_method_handler) or the decorator's name=
+        names[m["fname"] if m.get("via") == "add_override" else m["name"]] = m["hid"]
     return names
 
 
@@ -462,7 +481,16 @@ def gen_cfg(rng, nmeth=None, nbare=None):
         if mc == {"no_op": "call"} and rng.random() < 0.7:
             via = rng.choice(["default_decorator", "default_add"])
         m = {"name": "m%d" % k, "hid": k, "shape": rng.choice(["v0", "v0", "v0", "r0", "a1", "a2r"]), "mc": mc, "via": via}
-        if via == "decorator" and rng.random() < 0.4:
+        if via == "add" and rng.random() < 0.45:
+            # registered under a name that is not the function's: add_method_handler(sub, overriding_name=X); sometimes X is
+            # the own name of an earlier function that is registered under yet another name
+            m["via"], m["fname"] = "add_override", "impl%d" % k
+            stolen = [x["fname"] for x in methods if x.get("via") == "add_override" and not any(y["name"] == x["fname"] for y in methods)]
+            if stolen and rng.random() < 0.5:
+                m["name"] = stolen[0]
+        elif via == "decorator" and rng.random() < 0.2:
+            m["via"], m["fname"] = "decorator_name", "impl%d" % k
+        if via == "decorator" and m["via"] == "decorator" and rng.random() < 0.4:
             m["via"] = "decorator_kw"
             m["kw"] = dict(mc, **{oc: "never" for oc in OC5 if oc not in mc and rng.random() < 0.6})
         methods.append(m)
@@ -512,6 +540,11 @@ def shrink_cfg_steps(cfg):
                 c = copy.deepcopy(cfg)
                 del c["methods"][i]["kw"][oc]
                 yield c
+        if m.get("via") in ("add_override", "decorator_name") and not any(x["name"] == m["fname"] for x in cfg["methods"]):
+            c = copy.deepcopy(cfg)                # register under the function's own name instead
+            c["methods"][i]["via"] = "add" if m["via"] == "add_override" else "decorator"
+            del c["methods"][i]["fname"]
+            yield c
         if m["shape"] != "v0":
             c = copy.deepcopy(cfg)
             c["methods"][i]["shape"] = "v0"
